@@ -711,11 +711,12 @@ O(id='SET_encode_der', props=['C02', 'C06', 'C07', 'C14'], kind='bounded', entry
   bound='SET { a [2], b [0] OPTIONAL, c untagged CHOICE ([1] or [3]) } of stub members: every value and presence combination, every callback failure point, every allocation may fail',
   trusted=['member types are harness stubs', 'stubs/qsort_gen.c'], min_props=60, timeout=900)
 
-O(id='uper_open_type_skip.b5', props=['C03', 'C04'], kind='bounded', tier='experimental', entry='h_uper_open_type_skip', harness='harness/h_per_opentype.c',
-  units=[SK + 'per_opentype.c'], functions=['uper_open_type_skip', 'uper_open_type_get_simple', 'uper_sot_suck', 'uper_get_length', 'per_get_many_bits'],
-  fp_restrict=[(r'uper_decoder\)$', ['uper_sot_suck']), (r'\.output\)$', ['vf_cb', 'encode_dyn_cb', 'ignore_output'])],
-  stubs=['stubs/realloc64.c', 'stubs/memcpy16.c'], unwind=10, cbmc=['--unwindset', 'asn_get_few_bits:4,realloc.0:66,memcpy.0:18', '--no-malloc-may-fail'],
-  bound='open types of 0..5 octets with arbitrary contents at every bit offset 0..7', trusted=['stubs/realloc64.c, stubs/memcpy16.c'], min_props=50, timeout=900)
+for _l in (0, 1, 2, 3, 4):
+  O(id='uper_open_type_skip.l%d' % _l, props=['C03', 'C04'], kind='bounded', tier='experimental', entry='h_uper_open_type_skip', harness='harness/h_per_opentype.c', defines=['VF_OTN=4', 'VF_SKIP=3', 'VF_LEN=%d' % _l],
+    units=[SK + 'per_opentype.c'], functions=['uper_open_type_skip', 'uper_open_type_get_simple', 'uper_sot_suck', 'uper_get_length', 'per_get_many_bits'],
+    fp_restrict=[(r'uper_decoder\)$', ['uper_sot_suck']), (r'\.output\)$', ['vf_cb', 'encode_dyn_cb', 'ignore_output'])],
+    stubs=['stubs/realloc_fixed96.c', 'stubs/memcpy16.c'], unwind=10, cbmc=['--unwindset', 'asn_get_few_bits:4,realloc.0:98,memcpy.0:18', '--no-malloc-may-fail'],
+    bound='open types of exactly %d octets with arbitrary contents at bit offset 3' % _l, trusted=['stubs/realloc_fixed96.c (every block is 96 bytes: writes into the slack are not detected here), stubs/memcpy16.c'], min_props=50, timeout=900)
 
 O(id='SET_OF_decode_oer.chunk3e', props=['C05'], kind='bounded', tier='experimental', entry='h_SET_OF_decode_oer_chunked3', functions=['SET_OF_decode_oer', 'oer_fetch_quantity', 'asn_set_add'],
   unwind=6, cbmc=['--unwindset', 'oer_fetch_length.0:10,oer_fetch_length.1:10,oer_fetch_quantity.0:10,oer_fetch_quantity.1:10,realloc.0:66', '--no-malloc-may-fail'],
@@ -725,6 +726,11 @@ O(id='CHOICE_decode_uper.ext', props=['C03', 'C04', 'C14'], kind='bounded', entr
   unwind=10, cbmc=['--unwindset', 'asn_get_few_bits:4', '--malloc-may-fail', '--malloc-fail-null', '--memory-leak-check'],
   bound='extensible CHOICE { x, ..., y, z }: every bit string of at most 24 bits, every outcome of the open type reader (stub with the decoder convention); every allocation may fail',
   min_props=60, timeout=900, **dict(CHM, defines=['VF_CB_CAP=8', 'VF_CX=1'], trusted=CHM['trusted'] + ['uper_open_type_get: harness stub (per_opentype.c not linked)']))
+
+O(id='uper_open_type_skip.grid', props=['C03', 'C04'], kind='native', harness='harness/ot_skip_grid.c', entry='main',
+  functions=['uper_open_type_skip', 'uper_open_type_get', 'uper_open_type_get_simple', 'uper_sot_suck'], no_canary=True,
+  bound='native grid: open types of 0..200 and 16383..16386 octets x bit offsets 0..7 x 4 content patterns (zeros, ones, 0x55, VERIF_SEED random), run under ASan/UBSan',
+  timeout=900)
 
 for _o in OBLIGATIONS:
     if _o.get('enforce') and _o.get('kind') in ('enforce', 'width') and _o.get('tier') == 'quick' and 'C19' not in _o['props']:
@@ -736,7 +742,7 @@ XERU = 'all XER encoders/decoders (xer_decode_general, pxml_parse, OCTET_STRING 
 UNVERIFIED = {
  'C01': [CONSTR, GEN, XERU, 'uper_open_type_put / uper_open_type_get_simple (fragmentation at 16K needs inputs beyond any unwinding bound)', 'INTEGER (wide) UPER with semi-constrained ranges; NativeEnumerated (bsearch has no CBMC model); REAL text forms; time types', 'transcoding chains'],
  'C02': [CONSTR, GEN, 'tag assignment in the fixer (asn1f_fix_constr_autotag, asn1f_fetch_tags)', 'restricted-string PER alphabets (OCTET_STRING_per_put_characters)', 'NativeInteger_uper.* obligations exist but do not discharge (tier experimental)'],
- 'C03': [CONSTR, XERU, 'OCTET_STRING_decode_ber constructed reassembly (obligation experimental)', 'uper_open_type_skip', 'ber_skip_length (obligation experimental: recursion does not discharge)'],
+ 'C03': [CONSTR, XERU, 'OCTET_STRING_decode_ber constructed reassembly (obligation experimental)', 'uper_open_type_get_simple / uper_open_type_skip: no CBMC obligation discharges (bit-level fragment copying); covered only by the native grid uper_open_type_skip.grid', 'ber_skip_length (obligation experimental: recursion does not discharge)'],
  'C04': [CONSTR, XERU, 'OCTET_STRING_decode_ber (experimental)', 'per_opentype.c', 'UTF8String__process, OCTET_STRING_per_get_characters', 'unber (experimental)'],
  'C05': [CONSTR + ' -- i.e. every phase/step machine that saves a context across calls', XERU],
  'C06': ['SET_OF_encode_uper (canonical ordering for PER); SET OF lists of more than 3 elements', 'the default_value_cmp functions themselves (try_inline_default emits text)', 'CANONICAL-XER', 'decode-from-variant then re-encode for constructed types'],
